@@ -10,7 +10,8 @@ EXPLANATION = ("Necessary shape conditions of the bounded-FIFO behaviour, decide
                "guards are the exact canonical forms over the right counters (capacity exactly BUFFER_SIZE, emptiness judged against the "
                "*published* tail); (R02.3) producer and consumer address slot id % BUFFER_SIZE of the same buffer; (R02.4) for the full-sync "
                "ring every access to head/tail/buffer lies inside the spin-lock's critical section on all paths, so its operations are "
-               "serialised (sufficient for mutual exclusion). Linearizability of the lock-free ring under contention is NOT decided.")
+               "serialised (sufficient for mutual exclusion); (R02.5) the id the index-based publish / cancel rebuild from (index, lap) is `index + lap*N` "
+               "(dimension rules shared with C15). Linearizability of the lock-free ring under contention is NOT decided.")
 ASSUMPTIONS = ["interleaving-level correctness of AtomicMove's overshoot-and-recede protocol is not decided statically",
                "crossbeam-channel internals trusted"]
 
@@ -153,7 +154,11 @@ def check(ctx):
             for (b, c) in idx:
                 i = strip_casts(dg.expr(c["args"][1]))
                 base = ts.access_path(body, c["args"][0])
-                good = i[0] == "bin" and i[1] == "Rem" and strip_casts(i[3]) == ("gconst", "BUFFER_SIZE") and base and "buffer" in base
+                N = ("gconst", "BUFFER_SIZE")
+                is_mod = i[0] == "bin" and i[1] == "Rem" and strip_casts(i[3]) == N
+                m_ = strip_casts(i[3]) if i[0] == "bin" and i[1] == "BitAnd" else None      # `id & (N-1)`: the power-of-two spelling of `id % N`
+                is_mask = m_ is not None and m_[0] == "bin" and m_[1].rstrip("!~") == "Sub" and strip_casts(m_[2]) == N and strip_casts(m_[3]) == ("const", 1)
+                good = (is_mod or is_mask) and base and "buffer" in base
                 want_id = {"leak_slot_internal": ("enqueuer_tail", "tail"), "consume_leaking_internal": ("dequeuer_head", "head")}[fn]
                 idv = strip_casts(i[2]) if good else None
                 if good:
@@ -223,6 +228,16 @@ def check(ctx):
         ctx.ob("R02.4", f"{k}|balanced", not leaks, "", "every return leaves the lock free" if not leaks else f"a path returns with {sorted(leaks[0])}")
     ctx.floor("R02.4", 12)
     ctx.floor("R02.2", 6)
+    # ---------------------------------------------------------------- R02.5 index API: the id rebuilt from (index, lap) is position arithmetic of the allowed shape
+    # (the commit / recede CAS of the index-based functions is only 'ordered' if the candidate id is index + lap*N; dimension rules shared with C15)
+    import importlib, util
+    C15 = importlib.import_module("props.C15")
+    class Idx(util.PrefixedCtx):
+        def ob(self, rule, key, ok, site="", detail="", nontrivial=True, undecided=False):
+            if rule in ("R15.1", "R15.2") and ("try_publish_leaked_internal_index" in key or "try_unleak_slot_index_internal" in key):
+                return super().ob(rule, key, ok, site, detail, nontrivial, undecided)
+            return ok
+    C15.check(Idx(ctx, "R02.5"))
 
 def _signed(e):
     return e[0] == "cast" and e[1] in ("i32", "i64", "isize")
